@@ -59,7 +59,8 @@ def gen_case(ch, tier):
     g = witness.Gen(ch, doc, WCFG)
     a, b = gen_complex(ch, g), gen_complex(ch, g)
     x = g.describe(ch.pick(g.elems), 0, bare=True) if ch.p(0.6) else FG.gen_compound(ch, FGCFG, 1)
-    return {'tree': recipe, 'flavour': flavour, 'A': a, 'B': b, 'X': x, 'ns': ch.pick(sorted(NS_MAPS))}, doc
+    junk = ch.pick(('', ' ', 'p >', 'div +', 'span ~ ', 'a > ', '/**/', 'input +')) if ch.p(0.3) else None
+    return {'tree': recipe, 'flavour': flavour, 'A': a, 'B': b, 'X': x, 'ns': ch.pick(sorted(NS_MAPS)), 'junk': junk}, doc
 
 
 def union(doc_order, *sets):
@@ -107,6 +108,23 @@ def evaluate(case, doc=None):
     law('where-equals-is', whAB, isAB)
     law('matches-equals-is', maAB, isAB)
     law('compound-is-intersection', xIsA, [i for i in sX if i in set(anyIsA)])
+    # forgiving lists (:is/:where): an empty or dangling slot is forgiven and contributes nothing
+    j = case.get('junk')
+    if j:
+        for fn in ('is', 'where'):
+            for text in (f':{fn}({A}, {j}, {B})', f':{fn}({j}, {A}, {B})', f':{fn}({A}, {B}, {j})', f':{fn}({A},{j},{B})'):
+                try:
+                    got = sel(text, t, ns)
+                except sv.SelectorSyntaxError:
+                    continue
+                except Exception as e:  # noqa: BLE001
+                    fails.append(('raises-' + type(e).__name__, f'{text!r}: {e!r:.200}'))
+                    continue
+                if got != isAB:
+                    o = {i: n for n, i in enumerate(order)}
+                    fails.append(('forgiven-slot-changes-list', f'{text!r} selects {[o.get(i) for i in got]} but '
+                                  f':is({A}, {B}) selects {[o.get(i) for i in isAB]} ({ctx})'))
+                    break
     if not set(sA) <= set(sAB):
         fails.append(('list-loses-result', ctx))
     if not set(isA) <= set(U) or not set(notA) <= set(U):
